@@ -11,6 +11,10 @@
                      space-only / comment-only line insertion at every boundary outside string literals, trailing
                      whitespace / comments, continuation-line breaks: the full (type, value) token stream is the
                      same up to runs of NEWLINE (the grammar's `NL`).
+* `doc_spans`        which string literals are documentation strings (by position); `doc_trail_variants`: white space
+                     appended to the lines INSIDE them (used by suite `layout`: only the Api may be compared there).
+* `suite_doctrim`    the parser's rule `docstring : STRING` against `StoneVerif.DocTrim.docClean` (op fe.doctrim), and
+                     doc_trailing_ws evaluated on the real rule.
 """
 import re
 
@@ -376,6 +380,86 @@ def insert_variants(rng, text, cap):
     return out
 
 
+OPENERS, CLOSERS = '([{', ')]}'
+DOC_TAILS = [' ', '  ', '   ', '    ', '      ', '\t', ' \t', '\t ', '        ']
+
+
+def doc_spans(text):
+    """[(first, last)]: the physical lines (0-based, inclusive) of every string literal that is a DOCUMENTATION string,
+    recognised by position alone: it is the first token of its line, no parenthesis / bracket / brace is open, and only
+    blanks or a comment follow its closing quote (`docsection : docstring NL` is the only production in which a
+    statement begins with a STRING; everywhere else a literal follows `=`, `(`, `,`, `[`, `{` or `:`).  Independent of
+    `abstract` and of the real lexer."""
+    data = text + '\n'
+    spans = []
+    depth = 0
+    line = 0
+    first = True                                     # no token seen yet on this physical line
+    i, n = 0, len(data)
+    while i < n:
+        ch = data[i]
+        if ch == '\n':
+            line += 1
+            first = True
+            i += 1
+        elif ch in ' \t':
+            i += 1
+        elif ch == '#':
+            while data[i] != '\n':
+                i += 1
+        elif ch == '"':
+            m = STRING_RE.match(data, i)
+            if not m:
+                first = False
+                i += 1
+                continue
+            last = line + m.group().count('\n')
+            j = m.end()
+            while data[j] in ' \t':
+                j += 1
+            if first and depth == 0 and data[j] in '#\n':
+                spans.append((line, last))
+            line = last
+            first = False
+            i = m.end()
+        else:
+            if ch in OPENERS:
+                depth += 1
+            elif ch in CLOSERS:
+                depth = max(0, depth - 1)
+            first = False
+            i += 1
+    return spans
+
+
+def doc_interior_lines(text):
+    """physical lines that END inside a documentation string (every line of a multi-line doc string but its last):
+    whitespace appended to such a line is trailing whitespace of a doc line, which the parser removes
+    (`p_docstring_string`: "Remove trailing whitespace on every line")"""
+    return [ln for a, b in doc_spans(text) for ln in range(a, b)]
+
+
+def doc_trail_variants(rng, text, cap):
+    """[('doc-trail', line, tail, text')]: blanks / tabs appended to ONE line that ends inside a documentation string
+    (an empty line between two paragraphs of a doc included), every such line when there are at most `cap`; then
+    ('doc-trail-all', None, tail, text') with whitespace on every such line at once.  Only the Api may be compared
+    across these (the STRING token itself differs: the parser, not the lexer, trims doc lines)."""
+    raw = (text + '\n').split('\n')[:-1]
+    lines = doc_interior_lines(text)
+    if not lines:
+        return []
+    out = []
+    for ln in (lines if len(lines) <= cap else sorted(rng.sample(lines, cap))):
+        tail = rng.choice(DOC_TAILS)
+        out.append(('doc-trail', ln, tail, '\n'.join(raw[:ln] + [raw[ln] + tail] + raw[ln + 1:]) + '\n'))
+    for tail in ('  ', None):
+        new = list(raw)
+        for ln in lines:
+            new[ln] += tail if tail is not None else rng.choice(DOC_TAILS)
+        out.append(('doc-trail-all', None, tail, '\n'.join(new) + '\n'))
+    return out
+
+
 def first_sig_indent_zero(text):
     recs, _ = abstract(text)
     for r in recs:
@@ -429,6 +513,99 @@ def suite_lex_layout(ck):
                                      {'suite': 'fe.lex.layout', 'reference': [[path, text]], 'variant': [[path, vt]]})
                 else:
                     ck.agree('fe.lex.layout')
+
+
+# ------------------------------------------------------------------------------------------------ doc-string rule
+
+_PF = []
+SPACES = [' ', ' ', ' ', '\t', '\t', '\r', '\x0b', '\x0c', '\x1c', '\x1d', '\x1e', '\x1f', '\x85', '\xa0', '\u1680', '\u2000',
+          '\u2003', '\u200a', '\u2028', '\u2029', '\u202f', '\u205f', '\u3000']
+NOT_SPACES = ['\u200b', '\x00', '\x1b', '\x08', '\ufeff', '\u2060', '\u180e', '\x7f', '\x0e', '\x21']
+DOC_WORDS = ['A', 'note.', 'the', 'value', ':type:`Note`', 'is', 'caf\u00e9', '\u2264', 'x', '"quoted"', '\\', '#', '(paren)', '-']
+
+
+def real_docstring_rule(text):
+    """the REAL rule `docstring : STRING` (ParserFactory.p_docstring_string) applied to a token value"""
+    from stone.frontend.parser import ParserFactory
+    if not _PF:
+        _PF.append(ParserFactory())
+    p = [None, text]
+    _PF[0].p_docstring_string(p)
+    return p[0]
+
+
+def gen_doc_lines(rng):
+    """lines of a doc text as (content, tail): tail = white space that is not a line break"""
+    out = []
+    for _ in range(rng.choice((1, 2, 2, 3, 3, 4, 6))):
+        r = rng.random()
+        if r < 0.25:
+            body = ''                                                    # paragraph break
+        else:
+            words = [rng.choice(DOC_WORDS) for _ in range(rng.randrange(1, 5))]
+            body = rng.choice(('', '', '    ', '  ', '\t')) + rng.choice((' ', ' ', '  ', '\t')).join(words)
+            if rng.random() < 0.2:
+                body += rng.choice(NOT_SPACES)
+            if rng.random() < 0.15:
+                body += rng.choice(SPACES) + rng.choice(NOT_SPACES)
+        tail = ''.join(rng.choice(SPACES) for _ in range(rng.choice((0, 1, 1, 2, 3, 5)))) if rng.random() < 0.6 else ''
+        out.append((body, tail))
+    return out
+
+
+def judge_doctrim(ck, clean, dirty):
+    """the property on the real rule: `dirty` is `clean` with white space appended to some of its lines"""
+    try:
+        a, b = real_docstring_rule(clean), real_docstring_rule(dirty)
+    except Exception as e:                            # noqa
+        a, b = 'no exception', 'exception %s' % type(e).__name__
+    if a == b:
+        ck.agree('fe.doctrim.oracle')
+        return True
+    ck.failing_input('C11: white space at the end of a line of a documentation string changes the text the parser keeps '
+                     '(docstring : STRING): %r vs %r' % (a, b), {'kind': 'doc-trim', 'variant': 'trailing-ws'},
+                     {'suite': 'fe.doctrim', 'reference': clean, 'variant': dirty, 'real_reference': a, 'real_variant': b})
+    return False
+
+
+def suite_doctrim(ck):
+    """(1) correspondence of `DocTrim.docClean` (op fe.doctrim) with the real `p_docstring_string`, a sweep over every
+    code point below U+3100 (what `rstrip` removes) included; (2) doc_trailing_ws evaluated on the real rule"""
+    texts = ['', ' ', '\n', 'a', 'a \n b \n', 'a  \n  \nb ', '\n\n', ' \n \n ', 'a\r\nb\r\n', 'a \x0c\nb\x85', 'a\u200b \nb',
+             '\n'.join('a' + chr(c) for c in range(0x3100) if c != 10),
+             '\n'.join(chr(c) + 'a' + chr(c) * 2 for c in range(0x3100) if c != 10)]
+    pairs = []
+    for _ in range(ck.scale(600, 6000)):
+        lw = gen_doc_lines(ck.rng)
+        clean = '\n'.join(l for l, _w in lw)
+        dirty = '\n'.join(l + w for l, w in lw)
+        pairs.append((clean, dirty))
+        texts.append(dirty)
+        if ck.rng.random() < 0.3:
+            texts.append(clean)
+    replies = ck.driver([{'op': 'fe.doctrim', 'cps': [ord(c) for c in t]} for t in texts])
+    for t, rep in zip(texts, replies):
+        ck.case(('fe.doctrim', t), nontrivial='\n' in t)
+        try:
+            real = real_docstring_rule(t)
+        except Exception as e:                        # noqa
+            real = 'exception %s' % type(e).__name__
+        model = ''.join(chr(c) for c in rep['cps']) if 'cps' in rep else rep
+        if real == model:
+            ck.agree('fe.doctrim')
+        else:
+            ck.disagree('fe.doctrim', {'text': t}, real, model)
+    for clean, dirty in pairs:
+        ck.hist('fe.doctrim.lines', min(clean.count('\n') + 1, 6))
+        if clean != dirty:
+            ck.stat('fe.doctrim.with_trailing_ws')
+            if any(l != '' and l2 != l for l, l2 in zip(clean.split('\n')[:-1], dirty.split('\n')[:-1])):
+                ck.stat('fe.doctrim.with_trailing_ws_on_interior_line')
+        judge_doctrim(ck, clean, dirty)
+
+
+def replay_doctrim(ck, case):
+    judge_doctrim(ck, case['reference'], case['variant'])
 
 
 def replay_case(ck, case):
